@@ -3,7 +3,19 @@
 (* Layer A for C17 (command lines): splitting a command line into words.   *)
 (*                                                                         *)
 (* Characters are small integers (the harness maps them to real text):     *)
-(*   1 space  2 tab  3 "  4 '  5 \  6 -  7 $  8 a  9 e-acute (2 bytes)     *)
+(*   1 space  2 tab  3 "  4 '  5 \  6 -  7 $  8 a                          *)
+(*   9  M: ANY multi-byte letter.  The harness replays every case with     *)
+(*      each of e-acute (C3 A9), a-grave (C3 A0), A-ring (C3 85) and the   *)
+(*      ellipsis (E2 80 A6): their encodings contain the bytes A0 / 85,    *)
+(*      which are blanks when taken for Latin-1 characters - a word is a   *)
+(*      sequence of CHARACTERS, never cut inside one.  In the round trip   *)
+(*      (always quoted) M is also U+00A0 and U+0085 themselves.            *)
+(*   10 U: a non-ASCII Unicode space, U+00A0 or U+0085 (only WithNB).      *)
+(*      The documentation speaks of "spaces" only.  The unchanged code     *)
+(*      separates words at every unicode.IsSpace rune, POSIX sh only at    *)
+(*      space/tab/newline: `doc` takes U for a blank outside quotes,       *)
+(*      `posix` for an ordinary character, either is accepted; inside      *)
+(*      quotes U is literal in both.                                       *)
 (*                                                                         *)
 (* The tokenizer is an automaton over configurations                       *)
 (*   [st, words, cur, has]   st : normal / single / double / dEsc / nEsc   *)
@@ -36,11 +48,12 @@
 (***************************************************************************)
 EXTENDS Integers, Sequences, FiniteSets, TLC, Json
 
-CONSTANTS Mode, MaxLen, MaxArgs, MaxArgLen, PruneAt, Sel, Mod
+CONSTANTS Mode, MaxLen, MaxArgs, MaxArgLen, WithNB, PruneAt, Sel, Mod
 
-SP == 1  TB == 2  DQ == 3  SQ == 4  BS == 5  DASH == 6  DOLLAR == 7  LA == 8  LE == 9
-Alphabet == 1..9
+SP == 1  TB == 2  DQ == 3  SQ == 4  BS == 5  DASH == 6  DOLLAR == 7  LA == 8  LE == 9  NB == 10
+Alphabet == IF WithNB THEN 1..10 ELSE 1..9
 Blank == {SP, TB}
+IsBlank(ch, posix) == ch \in Blank \/ (ch = NB /\ ~posix)
 
 \* ------------------------------------------------------------------ the automaton
 Start == [st |-> "normal", words |-> <<>>, cur |-> <<>>, has |-> FALSE]
@@ -49,7 +62,7 @@ DqEscapable(posix) == IF posix THEN {DQ, BS, DOLLAR} ELSE {DQ, BS}
 
 Step(c, ch, posix) ==
   CASE c.st = "normal" ->
-         IF ch \in Blank
+         IF IsBlank(ch, posix)
            THEN IF c.has THEN [c EXCEPT !.words = Append(c.words, c.cur), !.cur = <<>>, !.has = FALSE] ELSE c
          ELSE IF ch = SQ THEN [c EXCEPT !.st = "single", !.has = TRUE]
          ELSE IF ch = DQ THEN [c EXCEPT !.st = "double", !.has = TRUE]
@@ -150,7 +163,7 @@ OpenAtEnd(s, i, q) ==   \* q = 0 outside, else the open quote character
   ELSE IF q = 0 THEN OpenAtEnd(s, i + 1, IF s[i] \in {DQ, SQ} THEN s[i] ELSE 0)
   ELSE OpenAtEnd(s, i + 1, IF s[i] = q THEN 0 ELSE q)
 LawMalformed ==
-  (Mode = "split" /\ \A i \in 1..Len(inp) : inp[i] # BS) =>
+  (Mode = "split" /\ \A i \in 1..Len(inp) : inp[i] \notin {BS, NB}) =>
      /\ Finish(d).err = OpenAtEnd(inp, 1, 0)
      /\ Finish(d) = Finish(p)
 
@@ -158,11 +171,11 @@ LawMalformed ==
 LawPlain ==
   (Mode = "split" /\ \A i \in 1..Len(inp) : inp[i] \notin {DQ, SQ, BS}) =>
      LET w == Finish(d).words
-         nb == {i \in 1..Len(inp) : inp[i] \notin Blank}
-         starts == {i \in nb : i = 1 \/ inp[i - 1] \in Blank}
+         nb == {i \in 1..Len(inp) : ~IsBlank(inp[i], FALSE)}
+         starts == {i \in nb : i = 1 \/ IsBlank(inp[i - 1], FALSE)}
      IN /\ ~Finish(d).err
         /\ Len(w) = Cardinality(starts)
-        /\ Flat([k \in 1..Len(w) |-> w[k]], [k \in 1..Len(w) |-> k]) = SelectSeq(inp, LAMBDA x : x \notin Blank)
+        /\ Flat([k \in 1..Len(w) |-> w[k]], [k \in 1..Len(w) |-> k]) = SelectSeq(inp, LAMBDA x : ~IsBlank(x, FALSE))
 
 \* ------------------------------------------------------------------ emission
 EmitSplit ==
